@@ -6,7 +6,7 @@
   read → build every atom's re-read bond list is its original bond list in the original order, renumbered
   (injectively) by visit position, with only the bond it was entered through moved to the front (component
   roots: unchanged); ring-closure bonds and branches stay interleaved as listed.  Proof: the simulation of
-  Purr/Lemmas/RtcRing.lean (see C01).  What is not a theorem: `walk` = `walkRec` (compared on every run).
+  Purr/Lemmas/RtcRing.lean (see C01).  `substituent_order_walk` states it about `walk` itself (Purr/Lemmas/LoopRecL.lean: loop = recursion).
 
   Stage 1, proved for every atom and bond list: when the traversal reaches an atom it
   schedules that atom's other bonds in exactly the order of its bond list (so children are visited and
@@ -61,6 +61,21 @@ theorem renumbering_injective (g : Graph) (hw : WellFormed g) (es : List (Event 
     ord.Nodup ∧ (∀ x, x < g.length ↔ x ∈ ord) ∧ ∀ a b, a ∈ ord → b ∈ ord → pos ord a = pos ord b → a = b := by
   obtain ⟨g1, _, _, hnd, hcov⟩ := rtc g hw es ord h
   exact ⟨hnd, hcov, fun a b ha hb => pos_inj ha hb⟩
+
+/-- the same, stated about `walk` itself (the loop mirroring src/walk/walk.rs; see C01.roundtrip_walk) -/
+theorem substituent_order_walk (g : Graph) (hw : WellFormed g) (hok : (walk g).2 = .ok) (hne : (walk g).1 ≠ []) :
+    ∃ t g' ord, write? (walk g).1 = some t ∧ (read t).2 = .ok ∧ build? (read t).1 = some (.ok g') ∧
+      ord.Nodup ∧ (∀ x, x < g.length ↔ x ∈ ord) ∧
+      ∀ x atomX, g[x]? = some atomX → ∃ atom', g'[pos ord x]? = some atom' ∧
+        (atom'.bonds = atomX.bonds.map (fun b => ⟨b.kind, pos ord b.tid⟩) ∨
+         ∃ pre back post, atomX.bonds = pre ++ back :: post ∧ (∀ o ∈ pre, o.tid ≠ back.tid) ∧
+           (∀ o ∈ post, o.tid ≠ back.tid) ∧
+           atom'.bonds = (back :: (pre ++ post)).map (fun b => ⟨b.kind, pos ord b.tid⟩)) := by
+  obtain ⟨es, ord, hr, hev⟩ := walkRec_of_walk_ok g hw hok
+  have hne' : es ≠ [] := by intro e; subst e; simp at hev; exact hne hev
+  obtain ⟨t, g', h1, h2, h3, h4⟩ := substituent_order g hw es ord hr hne'
+  obtain ⟨hnd, hcov, _⟩ := renumbering_injective g hw es ord hr
+  exact ⟨t, g', ord, by rw [← hev]; exact h1, h2, h3, hnd, hcov, h4⟩
 
 /-- a newly reached atom's other bonds are pushed in list order (the stack's top is the first one) -/
 theorem children_in_list_order (sid tid : Nat) (k : AtomKind) (bs : List Bond) :
